@@ -8,6 +8,7 @@ COQ = os.path.join(VERIF, 'coq')
 RUNNER = os.path.join(COQ, 'Extract', 'runner')
 EVIDENCE = os.environ.get('VERIF_EVIDENCE_DIR') or os.path.join(VERIF, 'evidence')
 REPLAYS = os.path.join(EVIDENCE, 'replays')
+CHILD = os.environ.get('VERIF_CHILD')      # set for the extra-seed workers of the thorough tier (see check.py)
 PY = '/venv/bin/python'
 
 # ------------------------------------------------------------------ environment
@@ -309,6 +310,10 @@ class Check(object):
         self.kf = known_findings()
 
     # ---- counting
+    def reseed(self, seed):
+        self.seed = seed
+        self.rng = random.Random(seed * 1000003 + int(self.pid[1:]))
+
     def count(self, suite, case, nontrivial=True):
         self.evaluations += 1
         self.suites[suite] = self.suites.get(suite, 0) + 1
@@ -328,6 +333,8 @@ class Check(object):
     def prove(self, relpath, extra_q=(), label=None, timeout=900):
         """Compile a property / finite-check file; every Print Assumptions block is one obligation."""
         ensure_built()
+        if CHILD:
+            return True, ''          # a fan-out worker of the thorough tier: the parent process checks the proofs
         path = relpath if os.path.isabs(relpath) else os.path.join(COQ, relpath)
         src = open(path).read()
         # compile a copy inside the build dir so that parallel checks never race on .vo files
@@ -397,7 +404,7 @@ class Check(object):
                 return
         if any(k == key for k, _r, _w in self.violations):
             return
-        self.violations.append((key, dict(replay, property=self.pid, suite=suite, key=key, what=what), what))
+        self.violations.append((key, dict(replay, property=self.pid, suite=suite, key=key, what=what, seed=self.seed, tier=self.tier), what))
 
     def broken(self, name, detail):
         """A proof obligation / correspondence that no longer checks and for which no failing input was found."""
@@ -408,6 +415,35 @@ class Check(object):
     def finish(self, rule, level_note=None):
         os.makedirs(REPLAYS, exist_ok=True)
         lines = []
+        if CHILD:
+            wd = os.path.join(EVIDENCE, 'workers')
+            os.makedirs(wd, exist_ok=True)
+            out = []
+            for key, replay, what in self.violations[:5]:
+                h = hashlib.sha1(json.dumps(replay, sort_keys=True, default=str).encode()).hexdigest()[:12]
+                path = os.path.join(REPLAYS, '%s-%s.json' % (self.pid, h))
+                with open(path, 'w') as f:
+                    json.dump(replay, f, indent=1, default=str)
+                out.append([key, path, str(what)[:300], bool(replay.get('no_failing_input_found'))])
+            with open(os.path.join(wd, '%s-%s.json' % (self.pid, CHILD)), 'w') as f:
+                json.dump({'seed': getattr(self, 'first_seed', self.seed), 'seeds_run': getattr(self, 'seeds_run', 1), 'evaluations': self.evaluations, 'distinct': [h.hex() for h in self.distinct], 'suites': self.suites,
+                           'dist': self.dist, 'violations': out, 'nviolations': len(self.violations), 'known': self.known_hits,
+                           'wall_s': round(time.time() - self.t0, 2)}, f)
+            return 1 if self.violations else 0
+        worker_viol = []
+        for w in getattr(self, 'workers', []):
+            self.evaluations += w['evaluations']
+            self.distinct |= set(bytes.fromhex(h) for h in w['distinct'])
+            for k, v in w['suites'].items():
+                self.suites[k] = self.suites.get(k, 0) + v
+            for k, v in w['dist'].items():
+                self.dist[k] = self.dist.get(k, 0) + v
+            for key, what in w['known']:
+                if key not in [k for k, _ in self.known_hits]:
+                    self.known_hits.append((key, what))
+            for key, path, what, nofail in w['violations']:
+                if not any(k == key for k, _r, _w in self.violations) and not any(k == key for k, *_ in worker_viol):
+                    worker_viol.append((key, path, what, nofail, w['seed']))
         for key, what in self.known_hits:
             print('KNOWN-FINDING: property=%s %s' % (self.pid, what))
         nviol = 0
@@ -425,6 +461,12 @@ class Check(object):
             nviol += 1
             if nviol >= 5:
                 break
+        for key, path, what, nofail, wseed in worker_viol:
+            if nviol >= 5:
+                break
+            print('# %s (seed %d): %s' % (self.pid, wseed, what))
+            print('VIOLATION property=%s replay=%s%s' % (self.pid, path, ' no-failing-input-found' if nofail else ''))
+            nviol += 1
         nob = len(self.obligations)
         ndis = sum(1 for _n, ok, _d in self.obligations if ok)
         tb = ['Coq 8.16.1 kernel (coqc, full .vo build; vm_compute used for finite checks; no native_compute)',
@@ -441,16 +483,18 @@ class Check(object):
             'known_findings_hit': [w for _k, w in self.known_hits],
         }
         cov.update(self.extra)
+        if getattr(self, 'workers', None):
+            cov['extra_seed_workers'] = [{'first_seed': w['seed'], 'seeds_run': w.get('seeds_run', 1), 'evaluations': w['evaluations'], 'violations': w['nviolations'], 'wall_s': w['wall_s']} for w in self.workers]
         ev = {'property_id': self.pid, 'tier': self.tier, 'seed': self.seed, 'level': 'proof',
               'coverage': cov, 'assumptions': self.assumptions, 'wall_s': round(time.time() - self.t0, 2),
-              'violations': len(self.violations)}
+              'violations': len(self.violations) + len(worker_viol)}
         os.makedirs(EVIDENCE, exist_ok=True)
         with open(os.path.join(EVIDENCE, self.pid + '.json'), 'w') as f:
             json.dump(ev, f, indent=1, default=str)
         print('%s: tier=%s seed=%d obligations=%d/%d evaluations=%d distinct=%d violations=%d known=%d wall=%.1fs'
               % (self.pid, self.tier, self.seed, ndis, nob, self.evaluations, len(self.distinct),
-                 len(self.violations), len(self.known_hits), time.time() - self.t0))
-        return 1 if self.violations else 0
+                 len(self.violations) + len(worker_viol), len(self.known_hits), time.time() - self.t0))
+        return 1 if (self.violations or worker_viol) else 0
 
 
 def standard_proof(chk, propfile, extra_q=()):
